@@ -24,6 +24,8 @@ type Cone struct {
 	Level   string   `json:"level"`
 	Note    string   `json:"note"`
 	Bounded []BoundedCheck `json:"bounded"`
+	SupportFuncs   []string `json:"support_funcs"`   // regexps: functions whose supporting contract obligations count too
+	SupportClasses []string `json:"support_classes"` // the classes counted only for support_funcs
 	WatchKeys string       `json:"watch_keys"` // regexp over heap keys: writes to pre-existing cells of these keys must be declared
 }
 
@@ -104,6 +106,13 @@ func (c *Cone) wantsObl(o *Obligation) bool {
 		for _, k := range c.Classes {
 			if k == o.Class {
 				ok = true
+			}
+		}
+		if !ok && matchAny(c.SupportFuncs, o.Func) {
+			for _, k := range c.SupportClasses {
+				if k == o.Class {
+					ok = true
+				}
 			}
 		}
 		if !ok {
